@@ -88,7 +88,7 @@ func hasEmptyKey(n *gen.Node) bool {
 }
 
 func genCfg(h *rt.H) *gen.Cfg {
-	return &gen.Cfg{Depth: h.Param("D", 2), Width: h.Param("W", 2), MaxNode: h.Param("K", 4), StrLen: h.Param("S", 1), Leaves: h.Param("L", 4), ASCII: h.Param("ASCII", 0) == 1, Small: h.Param("SMALL", 0) == 1, Bytes: h.Param("BYTES", 0) == 1}
+	return &gen.Cfg{Depth: h.Param("D", 2), Width: h.Param("W", 2), MaxNode: h.Param("K", 4), StrLen: h.Param("S", 1), Leaves: h.Param("L", 4), ASCII: h.Param("ASCII", 0) == 1, Small: h.Param("SMALL", 0) == 1, Bytes: h.Param("BYTES", 0) == 1, Chain: h.Param("CHAIN", 0)}
 }
 
 // newEncoder creates the codec's encoder; for JSON the three options are chosen symbolically.
@@ -576,3 +576,37 @@ func jsonStringEnc(h *rt.H) {
 }
 
 func ENC_JSONString(h *rt.H) { jsonStringEnc(h) }
+
+// RT_JSONFloatThenInt (C01, C04): [<float>, <integer>] through the JSON encoder and
+// parser: the integer after a float keeps its exact value and comes back as an
+// integer (per-number parser state must not leak into the next number). Integer
+// fully symbolic per digit class as in RT_JSONInt.
+func RT_JSONFloatThenInt(h *rt.H) {
+	x := h.U64("v")
+	pow10 := []uint64{0, 10, 100, 1000, 10000, 100000, 1e6, 1e7, 1e8, 1e9, 1e10, 1e11, 1e12, 1e13, 1e14, 1e15, 1e16, 1e17, 1e18, 1e19}
+	d := h.Choose("digits", 1, h.Param("MAXDIGITS", 20))
+	h.Assume(x >= pow10[d-1])
+	if d < 20 {
+		h.Assume(x < pow10[d])
+	}
+	out := &sink{}
+	enc := json.NewVisitor(out)
+	err := enc.OnArrayStart(-1, structform.AnyType)
+	if err == nil {
+		err = enc.OnFloat64(0.5)
+	}
+	if err == nil {
+		err = enc.OnUint64(x)
+	}
+	if err == nil {
+		err = enc.OnArrayFinished()
+	}
+	h.Assert("encoded", err == nil)
+	var rec ev.Recorder
+	h.Assert("accepted", json.Parse(cloneBytes(out.B), &rec) == nil)
+	got := ev.Normalise(rec.Events)
+	h.Assert("shape", len(got) == 4 && got[1].K == ev.Float64)
+	if len(got) == 4 {
+		h.Assert("integer-exact", ev.Equal(got[2:3], []ev.Event{ev.NumEvent(false, x)}))
+	}
+}
